@@ -6,7 +6,7 @@
    soundness theorems over the plain tree [mroot] are not yet proved (stated below as the
    checked, bounded obligations they currently are). *)
 From Coq Require Import List NArith.
-From Sia Require Import Prim.Tok Merkle.Tree Merkle.Forest Merkle.Rhp Merkle.RhpProofs Merkle.RhpRoot Merkle.RgComplete Merkle.RgSound Merkle.RgSound2.
+From Sia Require Import Prim.Tok Merkle.Tree Merkle.Forest Merkle.Rhp Merkle.RhpProofs Merkle.RhpRoot Merkle.RgComplete Merkle.RgSound Merkle.RgSound2 Merkle.RgAppend.
 Import ListNotations.
 
 Theorem C16_accumulator_is_forest : forall H L ds xs, Repr hash (node H) L ds ->
@@ -95,3 +95,37 @@ Print Assumptions C16_range_proof_sound.
 Theorem C16_range_collision_is_node_collision : forall H, RgSound.NodeCollision H <-> Tree.NodeCollision hash (node H).
 Proof. exact range_collision_same. Qed.
 Print Assumptions C16_range_collision_is_node_collision.
+
+(* ---- append proofs ---- *)
+(* rhp/v4 BuildAppendProof returns the digits of the accumulator over the existing roots (one subtree root per set bit of
+   the count) and the plain root of existing ++ appended; VerifyAppendSectorsProof accepts them with the plain old root *)
+Theorem C16_append_new_root_is_plain_root : forall H (ls app : list hash), snd (build_append_proof H ls app) = mroot H (ls ++ app).
+Proof. exact build_append_root. Qed.
+Print Assumptions C16_append_new_root_is_plain_root.
+
+Theorem C16_append_sectors_complete : forall H (ls app : list hash),
+  verify_append_sectors H (N.of_nat (length ls)) (fst (build_append_proof H ls app)) app (mroot H ls) (snd (build_append_proof H ls app)) = true.
+Proof. exact append_sectors_complete. Qed.
+Print Assumptions C16_append_sectors_complete.
+
+(* whatever subtree roots are supplied -- wrong, too few (missing ones read as the zero hash) or too many (the rest is
+   ignored) -- if VerifyAppendSectorsProof accepts against the plain root of the existing roots with the count held true,
+   the new root it accepted is the plain root of existing ++ appended, or a node collision is exhibited: an altered subtree
+   root, appended root, old root or new root is therefore rejected *)
+Theorem C16_append_sectors_sound : forall H (ls app proof : list hash) (newRoot : hash),
+  verify_append_sectors H (N.of_nat (length ls)) proof app (mroot H ls) newRoot = true ->
+  newRoot = mroot H (ls ++ app) \/ RgSound.NodeCollision H.
+Proof. exact append_sectors_sound. Qed.
+Print Assumptions C16_append_sectors_sound.
+
+(* rhp/v2 VerifyAppendProof (all 64 heights scanned, one appended root): the same two statements for counts below 2^64 *)
+Theorem C16_append_v2_complete : forall H (ls : list hash) (x : hash), (N.of_nat (length ls) < 2 ^ 64)%N ->
+  verify_append H (N.of_nat (length ls)) (somes (fold_left (fun a h => insert_node H h 0 a) ls [])) x (mroot H ls) (mroot H (ls ++ [x])) = true.
+Proof. exact append_v2_complete. Qed.
+Print Assumptions C16_append_v2_complete.
+
+Theorem C16_append_v2_sound : forall H (ls proof : list hash) (x newRoot : hash), (N.of_nat (length ls) < 2 ^ 64)%N ->
+  verify_append H (N.of_nat (length ls)) proof x (mroot H ls) newRoot = true ->
+  newRoot = mroot H (ls ++ [x]) \/ RgSound.NodeCollision H.
+Proof. exact append_v2_sound. Qed.
+Print Assumptions C16_append_v2_sound.
